@@ -72,7 +72,7 @@ class Gen:
         self.want_dbtp = want_dbtp
         self.locked = set()
         self.depth = 0
-        self.names = {"local": [], "method": [], "class": [], "module": [], "param": [], "blk": []}
+        self.names = {"local": [], "method": [], "class": [], "module": [], "param": [], "blk": [], "writer": []}
 
     # ---- helpers
     def i(self, lo, hi):
@@ -434,11 +434,24 @@ class Gen:
             if self.chance(0.15):
                 body.append({"t": self.pick(["private", "protected", "public"])})
         self.methods = saved_methods
+        writer = None
+        if self.chance(0.3):
+            # a hand-written attribute writer (no attr_*, no @ivar of that name) and its use
+            writer = self.fresh("method")
+            self.names.setdefault("writer", []).append(writer)
+            wp = self.fresh("param")
+            body.append({"h": "def %s=(%s)" % (writer, wp), "b": [{"t": wp}], "m": [], "e": "end"})
         head = "class %s%s" % (cname, " < %s" % parent[0] if parent else "")
         allm = ms + ([x for x in parent[1]] if parent else [])
         self.classes.append((cname, allm, 0))
         out = [{"h": head, "b": body, "m": [], "e": "end"}]
         out += self.s_obj_call()
+        if writer:
+            wv = self.fresh("local")
+            self.vars[wv] = "?"
+            out += [{"t": "%s = %s.new" % (wv, cname)}, {"t": "%s.%s = %s" % (wv, writer, self.lit(self.any_type(True)))}]
+            if self.want_dbtp:
+                out.append({"t": "dbtp %s" % wv})
         return out
 
     def s_obj_call(self):
